@@ -15,6 +15,8 @@ steps:
   ["silence", secs]        print nothing for secs
   ["mute", secs]           echo off and print nothing for secs
   ["exit", code]
+  ["replies", prompt, [r1, r2, ...]]   print prompt, then answer each line received with the next reply (a shell whose
+                           prompt is decorated once by a mail notice, a menu program whose answers change)
   ["shell", flavour, prompt]   interactive shell state (commands: echo text | rep N word | exit; prompt setters) (sh | csh | zsh | weird = accepts no prompt-setting command) until EOF/exit
 """
 import json
@@ -102,6 +104,11 @@ for st in script:
         echo(True)
     elif k == 'exit':
         sys.exit(st[1])
+    elif k == 'replies':
+        out(st[1])
+        for r in st[2]:
+            readline('cmd')
+            out(r)
     elif k == 'shell':
         flavour, prompt = st[1], st[2]
         note('shell-entered', flavour)
